@@ -2,6 +2,7 @@ package enga
 
 import (
 	"fmt"
+	"github.com/gkampitakis/go-snaps/match"
 	"math/rand/v2"
 	"os"
 	"path/filepath"
@@ -49,7 +50,7 @@ func yamlGoValue(r *rand.Rand) (any, string) {
 }
 
 func checkC18(c *vkit.Ctx) {
-	c.P.Rule = "three sub-workloads: (a) valid YAML text (multi-document streams, block scalars containing `---` / `/-/-/-/`, comments, anchors, flow sequences that look like entry headers, with/without final newline, trailing blank lines) passed as string or []byte to MatchYAML without matchers into a file that already holds a neighbour entry: the body found by the independent reader must equal the input with whole `---` lines escaped, byte for byte, and a replay in a fresh simulated process must pass without writing; (b) marshalable Go values (maps with >=3 keys, nested tagged structs, slices, maps of maps) recorded 50 times in fresh slots across simulated process restarts: all texts equal; (c) invalid YAML in four modes over missing/existing slots: exactly one Error, digest unchanged; non-trivial = document carrying >=1 hostile YAML class, any Go value, any invalid document; distinct by hash(input, form)"
+	c.P.Rule = "three sub-workloads: (a) valid YAML text (multi-document streams, block scalars containing `---` / `/-/-/-/`, comments, anchors, flow sequences that look like entry headers, with/without final newline, trailing blank lines) passed as string or []byte to MatchYAML without matchers into a file that already holds a neighbour entry: the body found by the independent reader must equal the input with whole `---` lines escaped, byte for byte, and a replay in a fresh simulated process must pass without writing; (b) marshalable Go values (maps with >=3 keys, nested tagged structs, slices, maps of maps) recorded 50 times in fresh slots across simulated process restarts: all texts equal; (c) invalid YAML, alone or together with matchers that have nothing to object to (Any/Custom on an existing member, lenient Any/Type on a missing path, Any without paths), in four modes over missing/existing slots: exactly one Error, digest unchanged; non-trivial = document carrying >=1 hostile YAML class, any Go value, any invalid document; distinct by hash(input, form)"
 	c.P.Assumptions = []string{"goccy/go-yaml's decoder decides which generated texts are valid YAML"}
 	n := c.N(40000, 1000000)
 	for i := 0; i < n; i++ {
@@ -266,7 +267,25 @@ func c18Invalid(c *vkit.Ctx, r *rand.Rand, i int) {
 	if form == "bytes" {
 		arg = []byte(bad)
 	}
-	snaps.WithConfig(opts...).MatchYAML(t, arg)
+	// with and without matchers: matchers parse the document themselves, which must not
+	// replace the validation
+	var ms []match.YAMLMatcher
+	mk := pick2(r, "none", "none", "any-on-a", "lenient-any-on-missing-path", "any-without-paths", "custom-on-a", "lenient-type-on-missing-path")
+	switch mk {
+	case "any-on-a":
+		ms = append(ms, match.Any("$.a"))
+	case "lenient-any-on-missing-path":
+		ms = append(ms, match.Any("$.zz.missing").ErrOnMissingPath(false))
+	case "any-without-paths":
+		ms = append(ms, match.Any())
+	case "custom-on-a":
+		ms = append(ms, match.Custom("$.a", func(v any) (any, error) { return "<c>", nil }).ErrOnMissingPath(false))
+	case "lenient-type-on-missing-path":
+		ms = append(ms, match.Type[string]("$.zz.missing").ErrOnMissingPath(false))
+	}
+	in["matchers"] = mk
+	c.Count("invalid_with_matchers:"+mk, 1)
+	snaps.WithConfig(opts...).MatchYAML(t, arg, ms...)
 	sig := t.Take()
 	t.Finish()
 	c.Count("invalid_calls", 1)
